@@ -287,6 +287,48 @@ func genUciDet(o *Out, r *rand.Rand, thorough bool) {
 		o.Count("ucidet:shuffle-in-one-update")
 		o.Nontrivial(l)
 	}
+	// a line of ANOTHER game that is rejected midway (its legal prefix has been played by then and leaves the same side to move),
+	// sent between two lines of one game: the line after it is that game, whatever the rejected one left behind
+	for _, l := range []string{
+		"uci plain 0 ; > position startpos moves e2e4 ;; sync ;; state ;; > position startpos moves d2d4 d7d5 c2c4 c2c5 ;; sync ;; state ;; > position startpos moves e2e4 e7e5 ;; sync ;; state ;; > go depth 1 ;; wait-bestmove ;; state",
+		"uci plain 0 ; > position startpos moves d2d4 d7d5 ;; sync ;; state ;; > position startpos moves e2e4 d7d5 zz g1f3 ;; sync ;; state ;; > position startpos moves d2d4 d7d5 g1f3 ;; sync ;; state ;; > go depth 1 ;; wait-bestmove ;; state",
+		"uci plain 0 ; > position fen 4k3/8/8/8/8/8/4P3/4K3 w - - 0 1 moves e2e4 ;; sync ;; state ;; > position fen 4k3/8/8/8/8/8/4P3/4K3 w - - 0 1 moves e2e3 e8e7 e3e4 e3e4 ;; sync ;; state ;; > position fen 4k3/8/8/8/8/8/4P3/4K3 w - - 0 1 moves e2e4 e8d8 ;; sync ;; state",
+	} {
+		o.do(l)
+		o.Count("ucidet:rejected-line-between-two-of-one-game")
+		o.Nontrivial(l)
+	}
+	for i := 0; i < 4; i++ {
+		start := fen.Initial
+		k := 1 + r.Intn(4)
+		l1, other := playoutMoves(r, start, k), playoutMoves(r, start, k)
+		ext := append(append([]string{}, l1...), "zz")
+		if b, ok := positionAfter(positionLine(start, l1)); ok {
+			if legal := b.Position().LegalMoves(b.Turn()); len(legal) > 0 {
+				ext[len(ext)-1] = moveUci(legal[r.Intn(len(legal))])
+			}
+		}
+		if len(l1) != k || len(other) != k || strings.Join(l1, " ") == strings.Join(other, " ") || ext[len(ext)-1] == "zz" {
+			continue
+		}
+		bad := positionLine(start, other) + " " + []string{"e2e5", "zz", "a1a1", "e1e1"}[r.Intn(4)]
+		l := fmt.Sprintf("uci plain 0 ; > %s ;; sync ;; state ;; > %s ;; sync ;; state ;; > %s ;; sync ;; state", positionLine(start, l1), bad, positionLine(start, ext))
+		o.do(l)
+		o.Count("ucidet:rejected-line-between-two-of-one-game")
+		o.Nontrivial(l)
+	}
+	// a driver attached to an engine that has been used before: the first position command of the session sets the game up from
+	// scratch, it does not extend whatever the engine holds
+	for _, l := range []string{
+		"uci plain+used 0 ; > position startpos ;; sync ;; state ;; > position startpos moves d2d4 ;; sync ;; state",
+		"uci plain+used 0 ; > position startpos moves d2d4 ;; sync ;; state ;; > go depth 1 ;; wait-bestmove ;; state",
+		"uci plain+used 0 ; > position startpos moves g1f3 g8f6 ;; sync ;; state ;; > position startpos moves g1f3 g8f6 f3g1 ;; sync ;; state",
+		"uci plain+used 0 ; sync ;; > position startpos moves e2e4 e7e5 g1f3 ;; sync ;; state",
+	} {
+		o.do(l)
+		o.Count("ucidet:driver-on-a-used-engine")
+		o.Nontrivial(l)
+	}
 }
 
 // ---- interleavings (checked by a monitor over the event trace) ------------------------------------
@@ -555,6 +597,18 @@ func raceScripts(r *rand.Rand, n int) []raceScript {
 			steps = append(steps, fmt.Sprintf("> setoption name Noise value %d", v), "> ucinewgame", "> position startpos", "> go depth 2", "wait-bestmove 20000", "quiet 100", "sync")
 		}
 		ret = append(ret, raceScript{[]string{"plain", "morlock"}[r.Intn(2)], append(steps, "alive"), "options"})
+	}
+	// a book whose lines castle and capture en passant: the same placement reached after the king (or the rook) has moved, or
+	// without the e.p. right, is another position - the book move of the line would be illegal there
+	for _, ms := range []string{
+		"e2e4 e7e5 e1e2 b8c6 e2e1 c6b8 g1f3 b8c6 f1b5 a7a6 b5a4 g8f6",
+		"e2e4 e7e5 g1f3 b8c6 f1b5 a7a6 b5a4 g8f6",
+		"d2d4 d7d5 c1f4 c8f5 b1c3 b8c6 d1d2 d8d7 a1b1 a8b8 b1a1 b8a8",
+		"d2d4 d7d5 c1f4 c8f5 b1c3 b8c6 d1d2 d8d7 e1c1",
+		"e2e4 c7c5 e4e5 d7d6 g1f3 d6d5 f3g1",
+		"e2e4 c7c5 e4e5 d7d5",
+	} {
+		ret = append(ret, raceScript{"bookplain", []string{"> position startpos moves " + ms, "> go", "wait-bestmove 20000", "quiet 100", "sync", "alive"}, "book with castling"})
 	}
 	// options an engine never advertised (a book switch sent to an engine without a book, unknown names) must be survived
 	for _, kind := range []string{"plain", "morlock", "turochamp"} {
